@@ -20,12 +20,17 @@ pub struct Violation {
    /// every relation that differs (for equality-type oracles); used to match known findings
    #[serde(default)]
    pub rels: Vec<String>,
+   /// where in the history the violating snapshot was taken
+   #[serde(default)]
+   pub actor: Option<usize>,
+   #[serde(default)]
+   pub op: Option<usize>,
 }
 
-fn v(class: &str, detail: String) -> Option<Violation> { Some(Violation { class: class.to_string(), detail, rel: None, rels: vec![] }) }
+fn v(class: &str, detail: String) -> Option<Violation> { Some(Violation { class: class.to_string(), detail, rel: None, rels: vec![], actor: None, op: None }) }
 
 fn vr(class: &str, rel: &str, detail: String) -> Option<Violation> {
-   Some(Violation { class: class.to_string(), detail, rel: Some(rel.to_string()), rels: vec![rel.to_string()] })
+   Some(Violation { class: class.to_string(), detail, rel: Some(rel.to_string()), rels: vec![rel.to_string()], actor: None, op: None })
 }
 
 pub type Facts = Vec<(String, Vec<Row>)>;
@@ -107,8 +112,12 @@ fn equal_to_reference_first(
                _ => {},
             }
          }
-         let extra = gm.iter().find(|(k, _)| !wm.contains_key(*k)).unwrap();
-         return vr("extra-tuple", meta.name, format!("{}: lattice {} has unexpected {}", ctx, meta.name, short(extra.1)));
+         return match gm.iter().find(|(k, _)| !wm.contains_key(*k)) {
+            Some(extra) => vr("extra-tuple", meta.name, format!("{}: lattice {} has unexpected {}", ctx, meta.name, short(extra.1))),
+            // same keys, same value per key in the maps, yet different row sets: the *reference* holds
+            // several rows for one key
+            None => vr("lattice-value", meta.name, format!("{}: lattice {} differs from the reference, which holds several rows for one key", ctx, meta.name)),
+         };
       }
       if let Some(m) = want.difference(&got).next() {
          return vr("missing-tuple", meta.name, format!("{}: relation {} lacks {}", ctx, meta.name, short(m)));
@@ -244,11 +253,11 @@ pub fn failure_violation(f: &Failure) -> Violation {
       Failure::Panic { msg } => {
          // class carries the location only, so that shrinking keeps "the same panic"
          let loc = msg.rsplit(" @ ").next().unwrap_or("");
-         Violation { class: format!("panic:{}", loc), detail: msg.clone(), rel: None, rels: vec![] }
+         Violation { class: format!("panic:{}", loc), detail: msg.clone(), rel: None, rels: vec![], actor: None, op: None }
       },
-      Failure::Deadlock { msg } => Violation { class: "deadlock".into(), detail: msg.clone(), rel: None, rels: vec![] },
+      Failure::Deadlock { msg } => Violation { class: "deadlock".into(), detail: msg.clone(), rel: None, rels: vec![], actor: None, op: None },
       Failure::StepLimit =>
-         Violation { class: "no-termination".into(), detail: "step budget exhausted under a fair schedule".into(), rel: None, rels: vec![] },
+         Violation { class: "no-termination".into(), detail: "step budget exhausted under a fair schedule".into(), rel: None, rels: vec![], actor: None, op: None },
    }
 }
 
@@ -272,6 +281,17 @@ fn pushed_between(actor: &Actor, from: usize, to: usize) -> bool {
 fn actor_snaps<'a>(obs: &'a Observation, ai: usize) -> Vec<&'a Snap> { obs.snaps.iter().filter(|s| s.actor == ai).collect() }
 
 pub fn judge(case: &Case, obs: &Observation) -> Option<Violation> {
+   let mut v = judge_inner(case, obs)?;
+   // "actor A op N: ..." -> structured position (used by the known-findings matcher)
+   if let Some(rest) = v.detail.strip_prefix("actor ") {
+      let mut it = rest.split(|c: char| !c.is_ascii_digit()).filter(|x| !x.is_empty());
+      v.actor = it.next().and_then(|x| x.parse().ok());
+      v.op = it.next().and_then(|x| x.parse().ok());
+   }
+   Some(v)
+}
+
+fn judge_inner(case: &Case, obs: &Observation) -> Option<Violation> {
    let check = case.check.as_str();
    if let Some(f) = &obs.failure {
       if check == "C05" {
@@ -360,7 +380,7 @@ thread_local! {
 
 /// the same actor (program, variant, history) run alone: no co-tenants, every construction and
 /// run in the default (global) pool of 4 threads, default schedule
-fn solo_snaps(case: &Case, ai: usize) -> Vec<Snap> {
+pub fn solo_snaps(case: &Case, ai: usize) -> Vec<Snap> {
    if let Some(hit) = SOLO_CACHE.with(|c| c.borrow().as_ref().filter(|(i, a, _)| *i == case.index && *a == ai).map(|x| x.2.clone())) {
       return hit;
    }
